@@ -16,7 +16,8 @@ NCPU = os.cpu_count() or 4
 GOENV = dict(os.environ, GOFLAGS="-mod=mod", GOPROXY="off", GOSUMDB="off", GOTOOLCHAIN="local")
 
 KF_ALL = ["KF_CollisionWinner", "KF_CounterFirst", "KF_TagAdoptEarly", "KF_ResendHistory",
-          "KF_MacPerMessage", "KF_CounterGrowth", "KF_StraySigFlush", "KF_ReAKEWipesMacs", "KF_FragKeep"]
+          "KF_MacPerMessage", "KF_CounterGrowth", "KF_StraySigFlush", "KF_ReAKEWipesMacs", "KF_FragKeep",
+          "KF_BadCommitWipes", "KF_EarlyPeerKey", "KF_RejectCommits", "KF_AKETimerAlways"]
 
 
 class Broken(Exception):
@@ -33,7 +34,16 @@ def scratch():
 
 
 def build_harness():
-    """Build the driver against /repo's current working tree with the hook tag."""
+    """Build the driver against the repository's current working tree with the hook tag.
+    With VERIF_REPO set (scratch worktrees used to try seeded changes) a private copy of the
+    harness is built so that parallel runs do not disturb each other."""
+    global BIN, HARNESS
+    if os.environ.get("VERIF_REPO"):
+        priv = tempfile.mkdtemp(prefix="verif-harness-", dir=os.environ.get("VERIF_SCRATCH", "/tmp"))
+        shutil.copytree(HARNESS, os.path.join(priv, "harness"), ignore=shutil.ignore_patterns("bin"))
+        HARNESS = os.path.join(priv, "harness")
+        BIN = os.path.join(HARNESS, "bin", "otrdrive")
+        PRIVATE.append(priv)
     os.makedirs(os.path.dirname(BIN), exist_ok=True)
     # go.sum must match the repository's
     try:
@@ -52,6 +62,14 @@ def build_harness():
     if p.returncode != 0:
         raise Broken("harness does not build against %s:\n%s" % (REPO, p.stdout + p.stderr))
     log("[build] harness built in %.1fs" % (time.time() - t0))
+
+
+PRIVATE = []
+
+
+def cleanup_private():
+    for d in PRIVATE:
+        shutil.rmtree(d, ignore_errors=True)
 
 
 def open_findings():
@@ -331,9 +349,10 @@ def run_of_line(tf, line):
 
 
 def write_evidence(pid, tier, seed, level, coverage, wall, violations, assumptions):
-    os.makedirs(os.path.join(VERIF, "evidence"), exist_ok=True)
+    evdir = os.environ.get("VERIF_EVIDENCE_DIR", os.path.join(VERIF, "evidence"))
+    os.makedirs(evdir, exist_ok=True)
     ev = dict(property_id=pid, tier=tier, seed=seed, level=level, coverage=coverage, wall_s=round(wall, 2),
               violations=violations, assumptions=assumptions)
-    p = os.path.join(VERIF, "evidence", pid + ".json")
+    p = os.path.join(evdir, pid + ".json")
     json.dump(ev, open(p, "w"), indent=1, default=str)
     return p
